@@ -1,5 +1,6 @@
 SPECIFICATION Spec
 CONSTANTS
+  AssignRule = "strict"
   CfgSpace <- MCSpaceQuick
 INVARIANT MachineAgrees
 INVARIANT CorrectIsGlobal
@@ -7,3 +8,4 @@ INVARIANT NoUnwritten
 INVARIANT IntendedCorrect
 INVARIANT ClosedForm
 INVARIANT ValueLevelInv
+INVARIANT NoSilentWrong
